@@ -442,9 +442,25 @@ def unit_layout(unit):
         obs.append(core.Obligation("layout:edited-program-on-used-assembler", "proved" if same2 else "failed", backend="enumeration",
                                    detail=None if same2 else f"program {k} (seed {unit['seed']}): edited program assembles differently on an Assembler that saw the previous version\n{src2}"))
         prev_src = src
+    for o in obs:
+        if o.status == "failed":
+            o.model = dict(seed=unit["seed"], programs=n, obligation=o.name)
     rep = _report(obs, unit, t0, "ok", None, kinds, dict(paths=n, queries=0, solver_s=0.0))
     rep["bounded"] = True
     return rep
+
+
+def replay_layout(body):
+    """Native replay: the generated programs are a function of the seed; re-run them and report the
+    same obligation failing again."""
+    unit, model = body["unit"], body.get("model") or {}
+    if unit.get("fn") != "unit_layout" or "seed" not in model:
+        return 4, "no generated program recorded"
+    rep = unit_layout(dict(unit, seed=model["seed"], programs=model["programs"]))
+    bad = [f for f in rep["failed"] if f["name"] == body.get("obligation")] or rep["failed"]
+    if bad:
+        return 1, f"{bad[0]['name']}: {str(bad[0]['detail'])[:600]}"
+    return 0, "all generated programs of this seed assemble to the reference layout natively"
 
 
 def unit_any(unit):
